@@ -22,7 +22,7 @@ def showErr : PErr → String
   | .metaLoad e => s!"metaload {e}"
   | .format e => s!"format {e}"
 
-def handle (line : String) : String :=
+def stateless (line : String) : String :=
   match PB.Drv.words line with
   | ["mw", c, m, e, d, s, j, fmt, hex] =>
     match parseMeta [c, m, e, d, s, j], fmt.toNat?, parseHex hex with
@@ -59,6 +59,34 @@ def handle (line : String) : String :=
     | none => "bad-op"
   | _ => "bad-op"
 
+/-- A wrapper object with history: created once, its metadata changed in place, serialised repeatedly.
+    The model has no hidden state: every serialisation reflects the current metadata. -/
+structure St where
+  w : Option (Meta × Nat × Bytes) := none
+
+def showParsed : Parsed → String
+  | .ok w => s!"ok {showMeta w.md} {w.format} {toHex w.data}"
+  | .err e => s!"err {showErr e}"
+  | .delegated _ => "delegated"
+
+def handle (s : St) (line : String) : St × String :=
+  match PB.Drv.words line with
+  | ["wnew", c, m, e, d, sc, j, fmt, hex] =>
+    match parseMeta [c, m, e, d, sc, j], fmt.toNat?, parseHex hex with
+    | some md, some f, some data => if f < 256 then ({ w := some (md, f, data) }, "ok") else (s, "bad-op")
+    | _, _, _ => (s, "bad-op")
+  | ["wset", c, m, e, d, sc, j] =>
+    -- fields are written through the Meta() pointer; the two flags can only be switched on
+    match s.w, parseMeta [c, m, e, d, sc, j] with
+    | some (old, f, data), some md =>
+      ({ w := some ({ md with secret := old.secret || md.secret, crownjewel := old.crownjewel || md.crownjewel }, f, data) }, "ok")
+    | _, _ => (s, "bad-op")
+  | ["wrt"] =>
+    match s.w with
+    | some (md, f, data) => (s, showParsed (newRawWrapper (marshalWrapper md (UInt8.ofNat f) data)))
+    | none => (s, "bad-op")
+  | _ => (s, stateless line)
+
 end PB.Drv.C08
 
-def main : IO Unit := PB.Drv.lineLoop PB.Drv.C08.handle
+def main : IO Unit := PB.Drv.runState ({} : PB.Drv.C08.St) PB.Drv.C08.handle
